@@ -302,7 +302,16 @@ func (w *sortedWorld) has(i, v int) bool { return w.p[i].Has(v) }
 func (w *mapWorld) observe() []setObs {
 	out := make([]setObs, len(w.p))
 	for i, s := range w.p {
-		vals := slices.Clone(s.Values())
+		// MapSet.Values documents no restriction on its result, so the caller
+		// owns it: scribbling over one result must not change the next one.
+		first := s.Values()
+		vals := slices.Clone(first)
+		for k := range first {
+			first[k] = -777
+		}
+		if again := s.Values(); len(again) != len(vals) || slices.Contains(again, -777) {
+			vals = append(slices.Clone(again), -778) // make the observation differ
+		}
 		sort.Ints(vals)
 		if vals == nil {
 			vals = []int{}
